@@ -58,7 +58,8 @@ impl<'de> Visitor<'de> for RoomNetworkVisitor {
         while let Some((key, value)) = access.next_entry::<String, JsonValue>()? {
             match key.as_str() {
                 "include_all_networks" => {
-                    include_all_networks = value.as_bool().unwrap_or(false);
+                    // The value is a string when it comes from a query string.
+                    include_all_networks = value.as_bool().unwrap_or_else(|| value.as_str() == Some("true"));
                 }
                 "third_party_instance_id" => {
                     third_party_instance_id = value.as_str().map(|v| v.to_owned());
